@@ -107,7 +107,11 @@ func CheckMain(args []string) int {
 	fs := flag.NewFlagSet("check", flag.ExitOnError)
 	tier := fs.String("tier", "", "quick|thorough")
 	only := fs.String("only", "", "comma-separated harness names")
-	jobs := fs.Int("j", 16, "parallel workers")
+	defJobs := 16
+	if v, err := strconv.Atoi(os.Getenv("VERIF_JOBS")); err == nil && v > 0 {
+		defJobs = v
+	}
+	jobs := fs.Int("j", defJobs, "parallel workers")
 	noEvidence := fs.Bool("no-evidence", false, "")
 	var prop string
 	if len(args) > 0 && !strings.HasPrefix(args[0], "-") {
@@ -195,7 +199,7 @@ func CheckMain(args []string) int {
 			defer cancel()
 			cmd := exec.CommandContext(ctx, self, "worker", "--prop", prop, "--harness", j.h.Name, "--tier", t,
 				"--case", strconv.Itoa(j.k), "--out", j.file, "--outdir", outDir)
-			cmd.Env = append(os.Environ(), "VERIF_ROOT="+VerifRoot)
+			cmd.Env = append(os.Environ(), "VERIF_ROOT="+VerifRoot, "VERIF_REPO="+RepoRoot)
 			var stderr bytes.Buffer
 			cmd.Stderr = &stderr
 			cmd.Stdout = &stderr
